@@ -107,6 +107,7 @@ func packModel(m []bool) []byte {
 // checkBitList executes the case against the real BitList and the []bool model.
 // It returns a short classification used for the statistics.
 func checkBitList(t TB, c BLCase) (words int, crossed bool, setAfterAppend bool) {
+	noteCase("C18", "bitlist-model", c)
 	fail := func(step int, format string, args ...any) {
 		failf(t, "C18", "bitlist-model", c, "step %d: %s", step, fmt.Sprintf(format, args...))
 	}
